@@ -4,6 +4,8 @@ import (
 	"fmt"
 	"go/types"
 	"sort"
+
+	"golang.org/x/tools/go/ssa"
 )
 
 // Quantifier-free bulk updates of heap components. A heap component is an (Array Loc T); a bulk
@@ -223,4 +225,13 @@ func (x *Exec) assumeIntRange(t types.Type, v string) {
 		lo, hi := intRange(ii)
 		x.c.assume(and(sx("<=", lo, v), sx("<=", v, hi)))
 	}
+}
+
+// state component counting the elements a map iteration has produced (ghost)
+func mapIterKey(v ssa.Value) string {
+	fn := ""
+	if in, ok := v.(ssa.Instruction); ok && in.Parent() != nil {
+		fn = mangle(in.Parent().String())
+	}
+	return "g:iter:" + fn + "." + v.Name() + "|IDX"
 }
